@@ -615,6 +615,17 @@ def check_property(prop, tier, seed):
     else:
         aud['obligations'] = len(theorem_names(prop))
 
+    # (3b) thorough tier: independent re-check of the compiled property modules with leanchecker
+    lc = None
+    if tier == 'thorough' and okb:
+        mods = ['Hub.Props.' + os.path.basename(f)[:-5] for f in prop_files(prop)]
+        t1 = time.time()
+        with Lock('lake'):
+            p = run(['lake', 'env', 'leanchecker'] + mods, cwd=LEAN, timeout=7200)
+        lc = {'modules': mods, 'ok': p.returncode == 0, 'wall_s': round(time.time() - t1, 1)}
+        if p.returncode != 0:
+            violations.append(('leanchecker rejects a compiled property module', {'tie': 'leanchecker', 'detail': (p.stdout + p.stderr).decode(errors='replace')[-1500:]}))
+
     # (4) harness + T-corr
     okh, hmsg = build_harness()
     if not okh:
@@ -700,6 +711,8 @@ def check_property(prop, tier, seed):
         'partial': P.get('partial', ''),
         'notes': notes,
     }
+    if lc:
+        cov['leanchecker'] = lc
     if probe:
         cov['probe'] = {k: v for k, v in probe.items() if k not in ('violations',)}
     if det:
